@@ -39,7 +39,9 @@ Clauses(r) ==
             /\ sm >= 0 /\ modeAt(r.after, q) = sm - (sm & r.umask)
       c14 == /\ (~Rejected(s) /\ \E v \in Visits(s) : v.k = "blk") => ex # 0
              /\ (ex = 0 /\ ~Rejected(s)) => \A v \in Visits(s) : (Special(v.k) /\ ~v.err) => nodeOk(v)
-      c16 == Rejected(s) => ex # 0 /\ ObsFull(r.before) = ObsFull(r.after)
+      \* "source identical to destination": a single file whose mapped destination is the same inode under another name
+      selfCopy == ~Rejected(s) /\ Cardinality(Visits(s)) = 1 /\ \E v \in Visits(s) : v.k = "file" /\ SameFile(FS0(s), v.from, v.to)
+      c16 == (Rejected(s) \/ selfCopy) => ex # 0 /\ ObsFull(r.before) = ObsFull(r.after)
   IN  (IF c02 THEN {} ELSE {"C02"}) \cup (IF c03 THEN {} ELSE {"C03"}) \cup (IF c08 THEN {} ELSE {"C08"})
       \cup (IF c13 THEN {} ELSE {"C13"}) \cup (IF c14 THEN {} ELSE {"C14"}) \cup (IF c16 THEN {} ELSE {"C16"})
 
